@@ -8,9 +8,16 @@ from . import core, engprop as E, gen, refs as R
 from . import indicators as X
 
 
+ANY = object()      # a reference entry the definition leaves open (comparison within rounding error of a tie)
+
+
 def series(rows: List[Dict], name: str) -> List:
     if name in ("open", "high", "low", "close", "volume"):
         return [r[name] for r in rows]
+    if name == "positive":
+        return [r["open"] < r["close"] for r in rows]
+    if name == "negative":
+        return [r["open"] > r["close"] for r in rows]
     return [r.get("inds", {}).get(name) for r in rows]
 
 
@@ -63,6 +70,29 @@ def expected(spec: Dict, ind, rows: List[Dict]) -> Dict[str, Tuple[List, float]]
     if k == "SUPERTREND":
         st = R.supertrend(h, l, c, ind.period, ind.multiplier)
         return {f: ([r[j] for r in st], 20 * small) for j, f in enumerate(["trend", "direction", "long", "short"])}
+    if k == "STDEVTHRES":
+        # true exactly when the input moved by more than multiplier*sigma; sigma is a stored
+        # (rounded, incrementally updated) helper, so comparisons within its error are left open
+        sd, m, out = R.stdev(x, ind.period), ind.multiplier, []
+        for i in range(n):
+            if sd[i] is None:
+                out.append(False)
+                continue
+            move, thr = abs(x[i] - x[i - 1]), m * sd[i]
+            if move == 0:
+                out.append(False)          # no move is never more than a non-negative threshold
+            elif abs(move - thr) <= m * 1.2e-2 + 1e-9 * abs(thr):
+                out.append(ANY)
+            else:
+                out.append(move > thr)
+        return {"": (out, 0.5)}
+    if k == "COUNTER":
+        out, run = [], 0
+        for r in x:
+            if r is not None:
+                run = run + 1 if ind.count_value == r else 0
+            out.append(run)
+        return {"": (out, 0.5)}
     if k == "RSI":
         return {"": (R.rsi(x, ind.period), 0.05)}
     if k == "MACD":
@@ -138,6 +168,8 @@ def falsify(ctx, case: Dict) -> bool:
         for f, (want, tol) in expected(spec, ind, rows).items():
             got = ind.as_list(f"{ind.name}.{f}" if f else None)
             for i, (g, w) in enumerate(zip(got, want)):
+                if w is ANY and g is not None:
+                    continue
                 if (g is None) != (w is None):
                     bad = {"relation": "presence", "field": f, "side": "missing" if g is None else "early"}
                     detail = (i, g, w)
@@ -162,13 +194,16 @@ def gen_case(rng, ctx, kinds: List[str]) -> Dict:
     n = rng.randint(3, 160 if ctx.thorough else 70)
     late = rng.choice([0, 0, 0, 1, 2, 7]) if kind in X.HAS_INPUT else 0
     inputs = ("src",) if late else ("close", "close", "high", "src")
-    if not late and kind in ("SMA", "EMA", "RMA", "WMA", "STDEV"):
+    if not late and kind in ("SMA", "EMA", "RMA", "WMA", "STDEV", "STDEVTHRES"):
         inputs = inputs + ("volume", "zsrc")       # series that contain exact zeros
     spec = X.gen_spec(rng, kind, ctx.thorough, inputs=inputs)
     spec["round_value"] = rng.choice([4, 4, 8])
     # helper series are stored with 4 decimals whatever the scale of the prices: keep the
     # prices large enough for that rounding to be small against the quantities compared
-    rows = X.gen_rows(rng, n, rng.choice(["walk", "walk", "mixed", "up", "down", "eqclose"]), late=late,
+    regimes = ["walk", "walk", "mixed", "up", "down", "eqclose"]
+    if kind == "STDEVTHRES":        # runs without any move, where the flag must stay False
+        regimes += ["eqclose", "flat", "mixed", "mixed"]
+    rows = X.gen_rows(rng, n, rng.choice(regimes), late=late,
                       base_prices=(100.0, 431.27, 9000.0))
     if rng.random() < 0.3:      # repeated volumes while prices move
         for r in rows:
